@@ -3,7 +3,7 @@
 //!
 //! Part (a), fault enumeration: for one freshly sealed token per backend x purpose x
 //! {footer y/n} x {assertion y/n}: every single-bit flip of every payload and footer byte,
-//! every truncation length (front and back), every boundary shift 1..min(len,64) between
+//! every truncation length (front and back), signatures moved within their residue class (S + kL for Ed25519, r/s + n for P-384, s + n for RSA), every boundary shift 1..min(len,64) between
 //! message, footer and assertion, extensions, footer/assertion add/remove/replace.
 //! Part (b), exploration: random tokens with 1-3 composed faults, wrong keys (other principal,
 //! one-bit neighbour), relabels across versions/purposes with same-bytes keys.
@@ -52,6 +52,9 @@ impl Scenario for C02 {
             "a random corruption is legitimately authentic with probability <= 2^-128; such an event would be judged by the ideal table, not assumed away".into(),
             "ECDSA (r, n-s) malleability is not in the property's fault list and is not injected".into(),
         ]
+    }
+    fn required_probes(&self, _tier: Tier) -> Vec<&'static str> {
+        vec!["fault:tok:sig-add-modulus", "fault:tok:sig-add-order"]
     }
     fn adopts(&self, v: &crate::world::Violation) -> bool {
         // every token sealed in these plans is recomputed by the independent implementation. A token whose
@@ -362,6 +365,24 @@ impl C02 {
         for k in 1..=15u8 {
             deliver(&mut b, vec![TokFault::SigAddOrder { k }]);
         }
+        // RSA: s + n is another 256-byte string of the same residue class (it fits for a quarter to a
+        // half of all signatures, so several tokens are signed)
+        if purpose == Purp::Public && bk == Bk::V1 {
+            let idx = b.plan.steps.iter().find_map(|s| match s { Step::KeyPool { slot, idx, kind: Kind::Secret, .. } if *slot == fk.secret => Some(*idx), _ => None });
+            if let Some(n) = idx.and_then(crate::fixtures::rsa2048_modulus) {
+                deliver(&mut b, vec![TokFault::SigAddValue { hex: hex::encode(&n) }]);
+                for _ in 0..5 {
+                    let t2 = b.tok_slot();
+                    let rng = b.healthy_rng();
+                    let (claims2, footer2) = match b.plan.steps.iter().find_map(|s| if let Step::Seal { claims, footer, .. } = s { Some((claims.clone(), footer.clone())) } else { None }) {
+                        Some(x) => x,
+                        None => break,
+                    };
+                    b.push(Step::Seal { tok: t2, node: 0, key, purpose, claims: claims2, footer: footer2, aad: Bytes::empty(), nonce: None, alias: false, rng, now_ns: now });
+                    b.push(Step::Deliver { tok: t2, node: 0, key: vkey, purpose: None, faults: vec![TokFault::SigAddValue { hex: hex::encode(&n) }], pk, fk: fkind, validator: v.clone(), alias: false, now_ns: now, pair_with: None });
+                }
+            }
+        }
         deliver(&mut b, vec![TokFault::FooterRemove]);
         deliver(&mut b, vec![TokFault::FooterReplace { hex: "00".into() }]);
         deliver(&mut b, vec![TokFault::FooterReplace { hex: hex::encode(b"{\"kid\":\"x\"}") }]);
@@ -372,6 +393,15 @@ impl C02 {
         for seg in ["", "AAAA", "AA", "e30", ".", "AAAA.AAAA"] {
             deliver(&mut b, vec![TokFault::TextExtraSegment { seg: seg.to_string() }]);
             deliver(&mut b, vec![TokFault::TextTrailingDot, TokFault::TextExtraSegment { seg: seg.to_string() }]);
+        }
+        // characters that are not shown: in front of the token, after the header, at the end
+        {
+            let hl = format!("v{}.{}.", bk.family(), purpose.name()).len();
+            for ch in crate::faults::INVISIBLES {
+                for at in [0usize, 2, hl, usize::MAX] {
+                    deliver(&mut b, vec![TokFault::TextInsert { at, ch }]);
+                }
+            }
         }
         // the trailing dot is *not* a corruption: must still be accepted when the footer is empty
         deliver(&mut b, vec![TokFault::TextTrailingDot]);
